@@ -185,7 +185,7 @@ def replay_random(arg):
 
 
 def run(ctx: Ctx):
-    consts = dict(TimeLists="{<<0>>, <<0,1>>, <<0,1,2>>, <<0,1,9>>, <<4,0>>, <<2,5,0>>}",
+    consts = dict(TimeLists="{<<0>>, <<0,1>>, <<0,1,2>>, <<0,1,9>>, <<4,0>>, <<2,5,0>>, <<0,4,5>>, <<0,4>>}",
                   EgoPoses="{[x |-> 0, y |-> 0, q |-> 0],[x |-> 10, y |-> 4, q |-> 1],[x |-> -7, y |-> 3, q |-> 3]}",
                   Cats='{"car","pedestrian.adult","bus","movable_object.barrier","unregistered.thing"}', AnnPoses="{<<1,2>>,<<5,-2>>,<<-3,0>>}", Sizes="{1,2}",
                   PtsSet="{0,7}", VisSet='{"full","most","partial","none"}', MaxInst="2", Sample="3" if ctx.quick else "6")
